@@ -145,6 +145,9 @@ func c01Sinks() []c01Sink {
 		{name: "rcdata-textarea", tpl: func(a, b string) string { return `<textarea data-m="1">` + a + `{{ v }}` + b + `</textarea><p>after</p>` }},
 		// whitespace-preserving elements are written by a separate serialiser path
 		{name: "pre-text", tpl: func(a, b string) string { return `<pre><code data-m="1">` + a + `{{ v }}` + b + `</code></pre><p>after</p>` }},
+		{name: "pre-direct", tpl: func(a, b string) string { return `<pre data-m="1">` + a + `{{ v }}` + b + `</pre><p>after</p>` }},
+		{name: "pre-direct-loop", tpl: func(a, b string) string { return `<div v-for="x in vs"><pre data-m="1">` + a + `{{ x }}` + b + `</pre></div><p>after</p>` }},
+		{name: "textarea-in-branch", tpl: func(a, b string) string { return `<form v-if="yes"><textarea data-m="1" name="bio">` + a + `{{ v }}` + b + `</textarea></form><p>after</p>` }},
 		{name: "pre-v-text", tpl: func(a, b string) string { return `<pre><code data-m="1" v-text="v">old</code></pre><p>after</p>` }},
 		{name: "pre-v-text-loop", tpl: func(a, b string) string { return `<pre><code data-m="1" v-for="x in vs" v-text="x">old</code></pre><p>after</p>` }},
 		{name: "pre-attr-bound", attr: "title", tpl: func(a, b string) string { return `<pre><code data-m="1" :title="v" title2="{{ v }}">t</code></pre><p>after</p>` }},
@@ -369,7 +372,12 @@ func runC01(r *Run) {
 		}
 		values = append(values, sb.String())
 	}
-	neigh := [][2]string{{"", ""}, {"pre ", " post"}, {"A &amp; B ", " &lt;c&gt;"}, {"q&quot; ", " 'x'"}, {"{ {x} ", " }"}}
+	neigh := [][2]string{{"", ""}, {"pre ", " post"}, {"A &amp; B ", " &lt;c&gt;"}, {"q&quot; ", " 'x'"}, {"{ {x} ", " }"}, {"\n", "\n"}, {"\n\n", ""}}
+	// values that begin with a line break (a parser drops one line feed after <pre> and <textarea>; the
+	// serialiser compensates for it, and must still escape what follows)
+	for _, t := range []string{"textarea", "pre", "xmp", "title"} {
+		values = append(values, "\n</"+t+"><img src=x onerror=alert(1)>", "\n\n<b>x</b></"+t+">", "\r\n</"+t+"><i>")
+	}
 	for _, sk := range c01Sinks() {
 		for ni, nb := range neigh {
 			if ni > 0 && !strings.Contains(sk.tpl("@", "@"), "@") {
@@ -420,18 +428,15 @@ func runC01(r *Run) {
 				if strings.HasPrefix(sk.name, "rawtext-") {
 					want = sink // a parser does not decode references in raw text: the escaped value is seen as written
 				}
-				if sk.name == "rawtext-include-prop" && (strings.TrimSpace(v) == "" || strings.HasPrefix(v, "{") || strings.HasPrefix(v, "[")) {
+				if sk.name == "rawtext-include-prop" && strings.TrimSpace(v) == "" {
 					want = sink
 				}
 				if sk.attr != "" && strings.TrimSpace(v) == "" && (sk.name == "attr-bound" || sk.name == "pre-attr-bound" || sk.name == "for-child-attr" || sk.name == "for-root" || sk.name == "include-bound-prop-attr") {
 					want = sink // a falsy bound value omits the attribute (C14)
 				}
-				if (sk.name == "include-static-prop" || sk.name == "slot-in-loop-include-prop") && (strings.HasPrefix(v, "{") || strings.HasPrefix(v, "[")) {
-					want = sink // JSON-looking attribute strings are decoded (documented)
-				}
 				if sk.name == "include-bound-prop" || sk.name == "include-bound-prop-attr" || sk.name == "slot-prop" || sk.name == "slot-twice-include-prop" || sk.name == "slot-twice-include-prop-attr" || sk.name == "include-in-loop" || sk.name == "include-nested-prop" {
-					if strings.TrimSpace(v) == "" || strings.HasPrefix(v, "{") || strings.HasPrefix(v, "[") {
-						want = sink // falsy props are not passed; JSON-looking strings are decoded (documented)
+					if strings.TrimSpace(v) == "" {
+						want = sink // falsy props are not passed
 					}
 				}
 				norm := func(s string) string { return strings.Join(strings.Fields(s), " ") }
